@@ -3,6 +3,8 @@ from lib import common, tlc
 
 
 def cfg(nt, ms, programs, withlock=True):
+    # the facts the inductive invariant of spec/PoolInd.tla states, checked on the bounded model too (with the lock)
+    shape = "INVARIANT IndShape\n" if withlock else ""
     return f"""SPECIFICATION Spec
 CONSTANTS
   NT = {nt}
@@ -10,7 +12,7 @@ CONSTANTS
   Programs <- {programs}
   WithLock = {'TRUE' if withlock else 'FALSE'}
 INVARIANT MonitorOK
-CHECK_DEADLOCK TRUE
+{shape}CHECK_DEADLOCK TRUE
 """
 
 
@@ -35,3 +37,30 @@ def check(rep, tier):
     if r.ok:
         raise common.MachineryError("vacuous pool contract: the lock-free model is accepted")
     rep.set("lock_free_model_rejected", True)
+
+
+def inductive_run(tier):
+    """spec/PoolInd.tla: the same statement-level steps with threads that go on forever; Apalache checks that IndInv is inductive
+    (Init => IndInv, IndInv /\\ Next => IndInv'), so the safety clauses hold in executions of any length."""
+    from lib import apalache
+    out = []
+    for nt, ms in ([(3, 2)] if tier == "quick" else [(3, 2), (3, 1), (4, 2)]):
+        defs = {"NT": nt, "MaxSize": ms}
+        base, d0 = apalache.check("PoolInd", "IndInv", length=0, defs=defs, timeout=600, init="Init", tag="base%d%d" % (nt, ms))
+        step, d1 = apalache.check("PoolInd", "IndInv", length=1, defs=defs, timeout=2400, init="IndInit", tag="step%d%d" % (nt, ms))
+        out.append((nt, ms, base, d0, step, d1))
+    return out
+
+
+def inductive_report(rep, results):
+    summary = {}
+    for nt, ms, base, d0, step, d1 in results:
+        summary["nt%d-max%d" % (nt, ms)] = {"base": base, "step": step}
+        for name, v, d in (("base", base, d0), ("step", step, d1)):
+            if v == "violated":
+                rep.violation(f"C08/model/apalache/PoolInd/{name}/nt{nt}-max{ms}",
+                              "the inductive invariant of the unbounded pool model fails (%s case)" % name, {"counterexample": d})
+            elif v != "ok":
+                rep.assumptions.append("Apalache %s case skipped for NT=%d MaxSize=%d (%s): C08 then rests on TLC's bounded programs"
+                                       % (name, nt, ms, d[:100].replace("\n", " ")))
+    rep.set("apalache_inductive_invariant", summary)
